@@ -248,7 +248,16 @@ func keysFromMessage(val reflect.Value, path []string, start int) ([]string, err
 	if val.Kind() != reflect.Struct {
 		return nil, fmt.Errorf("path %q traversal error: cannot lookup field %q (index %d in the path) in a %q value", strings.Join(path, "."), path[start], start, val.Kind())
 	}
-	valField := val.FieldByName(strings.Title(path[start]))
+	// The field may be promoted from an embedded struct pointer that is nil:
+	// unlike FieldByName, FieldByIndexErr reports that instead of panicking. A
+	// missing field stays the zero Value (reported by the recursive call).
+	var valField reflect.Value
+	if sf, ok := val.Type().FieldByName(strings.Title(path[start])); ok {
+		var err error
+		if valField, err = val.FieldByIndexErr(sf.Index); err != nil {
+			return nil, fmt.Errorf("path %q traversal error: %v", strings.Join(path, "."), err)
+		}
+	}
 
 	if valField.Kind() != reflect.Slice {
 		return keysFromMessage(valField, path, start+1)
